@@ -145,6 +145,11 @@ theorem mem_step_sim {s : Mem} {t : Spec} (h : MemRel s t) (op : Op) :
     | insert k => simp [Mem.step, Spec.step, hc, hcur, MemRel]; exact hk
     | remove => simp [Mem.step, Spec.step, hc, hcur, MemRel]; exact hk
     | drop => simp [Mem.step, Spec.step, hc, hcur, MemRel]; exact hk
+    | insertFail k => simp [Mem.step, Spec.step, hc, hcur, MemRel]; exact hk
+    | tryInsertFail i k =>
+      cases hm : t.m i with
+      | none => simp [Mem.step, Spec.step, hc, hcur, Mem.entry, hk i, hm, MemRel]; exact hk
+      | some k' => simp [Mem.step, Spec.step, hc, hcur, Mem.entry, hk i, hm, MemRel]; exact hk
   | some i =>
     simp only [hcur, Option.map_some] at hc
     cases hm : t.m i with
@@ -162,6 +167,8 @@ theorem mem_step_sim {s : Mem} {t : Spec} (h : MemRel s t) (op : Op) :
       | tryInsert j k => simp [Mem.step, Spec.step, hc, hcur, hm, MemRel]; exact hk
       | sremove j => simp [Mem.step, Spec.step, hc, hcur, hm, MemRel]; exact hk
       | reopen => simp [Mem.step, Spec.step, hc, hcur, hm, MemRel]; exact hk
+      | insertFail k => simp [Mem.step, Spec.step, hc, hcur, hm, MemRel]; exact hk
+      | tryInsertFail j k => simp [Mem.step, Spec.step, hc, hcur, hm, MemRel]; exact hk
     | some k =>
       simp only [hm, Option.isSome_some] at hc
       cases op with
@@ -176,6 +183,8 @@ theorem mem_step_sim {s : Mem} {t : Spec} (h : MemRel s t) (op : Op) :
       | tryInsert j k => simp [Mem.step, Spec.step, hc, hcur, hm, MemRel]; exact hk
       | sremove j => simp [Mem.step, Spec.step, hc, hcur, hm, MemRel]; exact hk
       | reopen => simp [Mem.step, Spec.step, hc, hcur, hm, MemRel]; exact hk
+      | insertFail k => simp [Mem.step, Spec.step, hc, hcur, hm, MemRel]; exact hk
+      | tryInsertFail j k => simp [Mem.step, Spec.step, hc, hcur, hm, MemRel]; exact hk
 
 /-! ## `fs_keystore::Store` ⊑ map -/
 
@@ -338,6 +347,36 @@ theorem files_after_remove {s : Fs} {t : Spec} {i : Nat}
   · rw [file_unlink_ne _ hj, upd_ne _ _ hj, hr j hj]
 
 
+/-- a failed insert through a vacant entry: partial bytes reach the fresh inode, then the clean
+entry is dropped and the name is unlinked -/
+theorem vacInsertFail_err {s : Fs} {i a : Nat} (k : UInt64) (h0 : s.inodes[a]? = some []) :
+    s.vacInsertFail i ⟨a, 0⟩ k =
+      (.err, { dir := adel s.dir i, inodes := s.inodes.set a (partialEnc k), cur := none }) := by
+  simp [Fs.vacInsertFail, h0, Fs.write, Fs.unlink]
+
+theorem after_failed_insert {s : Fs} {t : Spec} {i a : Nat} (k : UInt64) (hb : Bound s)
+    (hm : t.m i = none)
+    (hr : ∀ j, j ≠ i → s.file j = (t.m j).map enc ∧ aget s.dir j ≠ some a) :
+    Bound ({ dir := adel s.dir i, inodes := s.inodes.set a (partialEnc k), cur := none } : Fs) ∧
+    ∀ j, ({ dir := adel s.dir i, inodes := s.inodes.set a (partialEnc k), cur := none } : Fs).file j
+      = (t.m j).map enc := by
+  constructor
+  · intro j b h
+    by_cases hj : j = i
+    · subst hj; simp [aget_adel_same] at h
+    · simp [aget_adel_ne _ hj] at h; simpa using hb j b h
+  · intro j
+    by_cases hj : j = i
+    · subst hj; simp [Fs.file, aget_adel_same, hm]
+    · obtain ⟨h1, h2⟩ := hr j hj
+      rw [← h1]
+      simp only [Fs.file, aget_adel_ne _ hj]
+      cases hd : aget s.dir j with
+      | none => simp
+      | some b =>
+        have : a ≠ b := fun e => h2 (by rw [hd, e])
+        simp [List.getElem?_set_ne this]
+
 theorem fsRel_A {s : Fs} {t : Spec} (hb : Bound s) (hc : t.cur = none) (hs : s.cur = none)
     (hf : ∀ j, s.file j = (t.m j).map enc) : FsRel s t := ⟨hb, Or.inl ⟨hc, hs, hf⟩⟩
 
@@ -353,6 +392,23 @@ theorem fs_step_sim {s : Fs} {t : Spec} (h : FsRel s t) (op : Op) :
     | remove => simpa [Fs.step, Spec.step, hc, hs] using hrel
     | drop => simpa [Fs.step, Spec.step, hc, hs] using hrel
     | reopen => simpa [Fs.step, Spec.step, hc, hs] using hrel
+    | insertFail k => simpa [Fs.step, Spec.step, hc, hs] using hrel
+    | tryInsertFail i k =>
+      cases hm : t.m i with
+      | none =>
+        have hd := dir_none_of_file_none hb (by simpa [hm] using hf i)
+        obtain ⟨c1, c2, c3, c4⟩ := created_props hb i
+        have hins := vacInsertFail_err (s := { s.created i with cur := some ⟨i, false, ⟨s.inodes.length, 0⟩⟩ })
+          (i := i) k c3
+        have haf := after_failed_insert (s := { s.created i with cur := some ⟨i, false, ⟨s.inodes.length, 0⟩⟩ })
+          (t := t) (a := s.inodes.length) k c1 hm
+          (fun j hj => ⟨by rw [← hf j]; exact (c4 j hj).1, (c4 j hj).2⟩)
+        simp only [Fs.step, Spec.step, hc, hs, hm, entry_vac hd, hins]
+        exact ⟨trivial, haf.1, Or.inl ⟨hc, rfl, haf.2⟩⟩
+      | some k' =>
+        obtain ⟨a, ha, hc'⟩ := (file_some_iff _ _ _).mp (by simpa [hm] using hf i)
+        have hss : ({ s with cur := none } : Fs) = s := by cases s; simp_all
+        simpa [Fs.step, Spec.step, hc, hs, hm, entry_occ ha, hss] using hrel
     | sget i =>
       cases hm : t.m i with
       | none =>
@@ -423,6 +479,8 @@ theorem fs_step_sim {s : Fs} {t : Spec} (h : FsRel s t) (op : Op) :
     | tryInsert j k' => simpa [Fs.step, Spec.step, hc, hs] using hrel
     | sremove j => simpa [Fs.step, Spec.step, hc, hs] using hrel
     | reopen => simpa [Fs.step, Spec.step, hc, hs] using hrel
+    | insertFail k' => simpa [Fs.step, Spec.step, hc, hs, hm] using hrel
+    | tryInsertFail j k' => simpa [Fs.step, Spec.step, hc, hs] using hrel
     | get =>
       have hg := occGet_rw (s := s) (off := off) hino
       simp only [Fs.step, Spec.step, hc, hs, hm]
@@ -452,6 +510,11 @@ theorem fs_step_sim {s : Fs} {t : Spec} (h : FsRel s t) (op : Op) :
     | tryInsert j k' => simpa [Fs.step, Spec.step, hc, hs] using hrel
     | sremove j => simpa [Fs.step, Spec.step, hc, hs] using hrel
     | reopen => simpa [Fs.step, Spec.step, hc, hs] using hrel
+    | tryInsertFail j k' => simpa [Fs.step, Spec.step, hc, hs] using hrel
+    | insertFail k =>
+      have haf := after_failed_insert (t := t) k hb hm hr
+      simp only [Fs.step, Spec.step, hc, hs, hm, vacInsertFail_err k h0]
+      exact ⟨trivial, haf.1, Or.inl ⟨rfl, rfl, haf.2⟩⟩
     | insert k =>
       simp only [Fs.step, Spec.step, hc, hs, hm, vacInsert_ok k h0]
       refine ⟨trivial, ?_, Or.inl ⟨rfl, rfl, files_after_insert k hb ha hr⟩⟩
